@@ -471,6 +471,7 @@ def gen_scalarize(repo, res):
     u2 = Argument("u", (2,))
     i, j, k = I(1), I(2), I(3)
     h3, A3 = Coefficient("h", tdim=3), Coefficient("M", (3, 3), tdim=3)
+    w2, w3 = Coefficient("w", (2,)), Coefficient("W", (3,), tdim=3)
     p3, q3 = I(4, 3), I(5, 3)
     dot_AB = ComponentTensor(IndexSum(Product(Indexed(A, mi(i, k)), Indexed(B, mi(k, j))), mi(k)), mi(i, j))
     samples = [
@@ -483,6 +484,12 @@ def gen_scalarize(repo, res):
         ("first component of a list tensor", Indexed(ListTensor(Sum(f_, g_), Product(f_, Indexed(u2, mi(FixedIndex(1)))), Product(g_, g_)), mi(FixedIndex(0)))),
         ("contraction over the first of two free indices: (A^T u)[1]", Indexed(ComponentTensor(IndexSum(Product(Indexed(A, mi(i, j)), Indexed(u2, mi(i))), mi(i)), mi(j)), mi(FixedIndex(1)))),
         ("Hessian in three dimensions contracted with a tensor", IndexSum(IndexSum(Product(Indexed(ReferenceGrad(ReferenceGrad(h3)), mi(p3, q3)), Indexed(A3, mi(p3, q3))), mi(q3)), mi(p3))),
+        ("Hessian of the second component of a vector-valued function contracted with a tensor",
+         IndexSum(IndexSum(Product(Indexed(ReferenceGrad(ReferenceGrad(w2)), mi(FixedIndex(1), i, j)), Indexed(A, mi(i, j))), mi(j)), mi(i))),
+        ("vector Laplacian tested with a vector argument: sum_c sum_i d2w_c/dX_i^2 u_c",
+         IndexSum(Product(IndexSum(Indexed(ReferenceGrad(ReferenceGrad(w2)), mi(k, i, i)), mi(i)), Indexed(u2, mi(k))), mi(k))),
+        ("Hessian of a vector-valued function in three dimensions, component 2, contracted with a tensor",
+         IndexSum(IndexSum(Product(Indexed(ReferenceGrad(ReferenceGrad(w3)), mi(FixedIndex(2), p3, q3)), Indexed(A3, mi(p3, q3))), mi(q3)), mi(p3))),
         ("division of a tensor expression by a scalar", Indexed(ComponentTensor(Division(Indexed(A, mi(i, j)), Sum(f_, g_)), mi(i, j)), mi(FixedIndex(1), FixedIndex(0)))),
         ("restricted operands of an interior facet term", IndexSum(Product(Indexed(Restricted(ReferenceGrad(f_), "+"), mi(i)), Indexed(Restricted(ReferenceGrad(v), "-"), mi(i))), mi(i))),
         ("trace of a matrix product (double contraction)", IndexSum(Indexed(dot_AB, mi(i, i)), mi(i))),
